@@ -422,6 +422,37 @@ pub fn zip_with_length_gate(a: &[u32], b: &[u32]) -> Result<(), GErr> {
     Ok(())
 }
 
+/// a validator that narrows its sequence by a computed amount / only by a constant
+pub fn validates_computed_suffix(a: &[u32], b: &[u32], done: usize) -> Result<(), GErr> {
+    if a.len() != b.len() {
+        return Err(GErr::Mismatch);
+    }
+    for (i, x) in a.iter().enumerate().skip(done) {
+        if *x != b[i] {
+            return Err(GErr::Mismatch);
+        }
+    }
+    Ok(())
+}
+
+pub fn validates_computed_slice(a: &[u32], done: usize) -> Result<(), GErr> {
+    for x in &a[done..] {
+        if *x == 0 {
+            return Err(GErr::Mismatch);
+        }
+    }
+    Ok(())
+}
+
+pub fn validates_adjacent_pairs(a: &[u32]) -> Result<(), GErr> {
+    for (x, y) in a.iter().zip(a.iter().skip(1)) {
+        if x >= y {
+            return Err(GErr::Mismatch);
+        }
+    }
+    Ok(())
+}
+
 /// `x.ok_or(e)?` is the same absence edge as `let Some(x) = .. else { return Err(e) }`
 pub fn presence_via_ok_or(m: &std::collections::BTreeMap<u32, u32>, k: u32, out: &mut Vec<u32>) -> Result<(), E> {
     let v = m.get(&k).ok_or(E)?;
